@@ -1305,6 +1305,27 @@ fn part_a_chain(
 						json!({"part":"A","chain_idx":ci,"height":hgt,"field":mu.field,"kind":mu.kind,"outcome":outcome_s}),
 					);
 				}
+				// ... and as a FULL block on this receiver, which knows the honest header only header-first: the block's own
+				// header breaks a rule (its proof of work belongs to other contents), the body is the honest one
+				let ob = deliver(chain, Entry::Pb, &mu.header, &honest_block);
+				let outcome_b = match &ob {
+					Outcome::Ok => "accepted".to_string(),
+					Outcome::Err(v) => format!("rejected:{}", v),
+					Outcome::Panic(l) => format!("panic@{}", l),
+				};
+				run.eval(
+					&format!("A;post_known_as_block;known_through={};era=v{};field={};kind={};outcome={}", entry.name(), ver, mu.field, mu.kind, outcome_b),
+					true,
+				);
+				run.count("partA_same_hash_mutants_delivered_as_full_blocks_after_header_first", 1);
+				let body_head_is_it = chain.head().map(|t| t.last_block_h == honest.hash()).unwrap_or(false);
+				if !matches!(ob, Outcome::Err(_)) || body_head_is_it {
+					run.violation(
+						&format!("partA;entry=process_block_after_{};era=v{};field={};kind={};event=block_with_invalid_header_accepted", entry.name(), ver, mu.field, mu.kind),
+						&format!("a full block whose header breaks a rule but shares the hash of a header known header-first: {} (body head on it: {})", outcome_b, body_head_is_it),
+						json!({"part":"A","chain_idx":ci,"height":hgt,"field":mu.field,"kind":mu.kind,"outcome":outcome_b}),
+					);
+				}
 			}
 		}
 	}
